@@ -361,6 +361,7 @@ def run(cx: Cx):
                                 f"recognisably the queue or a same-order copy of it", where=cx.where(fn, site.loop_ev.line),
                                 function=fn.qualname)
     cx.floor('scheduler loops calling System.execute', len(seen_loops), 1)
+    check_scheduler_keeps_system_set(cx)
 
     # ------------------------------------------------------------ clause 4: R-ATOMIC
     check_atomic(cx, add.qualname, ['KeyError'])
@@ -368,6 +369,18 @@ def run(cx: Cx):
 
     # ------------------------------------------------------------ clause 6: collectors forward their schedule
     sysinit = CORE + 'System.__init__'
+    # the priority a system is registered with is the value it was declared with (not truncated, clamped or converted: 1.5 lies
+    # strictly between 1 and 2)
+    si = cx.fn(sysinit)
+    for p in cx.walker.paths(si, WalkOptions(unroll=1)):
+        st_ = [e for e in p.events if e.kind == 'store' and e.data.get('attr') == 'priority']
+        if len(st_) == 1 and st_[0].data.get('value') == Sym('priority'):
+            cx.ok('R-FWD', 'System.priority := parameter priority', where=cx.where(si, st_[0].line), function=si.qualname)
+        else:
+            cx.violation('R-FWD', si.qualname, 'priority-field-from-parameter',
+                         f"System.__init__ does not store its 'priority' parameter unchanged in the field 'priority' (found "
+                         f"{[repr(e.data.get('value')) for e in st_]}): systems declared with distinct priorities can end up level, and "
+                         f"equal-priority systems run in registration order instead", where=cx.where(si))
     sys_default = const_default(cx, cx.fn(sysinit), 'priority')
     for c in ('Collector', 'AgentCollector', 'FileCollector'):
         check_forwarding_chain(cx, COLL + c, ['priority', 'frequency', 'start', 'end'], sysinit)
@@ -384,8 +397,41 @@ def run(cx: Cx):
         else:
             cx.inconclusive('R-FWD', f"{c} default priority", "default priority is not a constant", where=cx.where(ctor))
     from .common import include_premises
-    include_premises(cx, ['C05'], 'systems run in queue order only if the scheduler walks an unmodified same-order snapshot of the queue',
-                     only=lambda o: o.rule == 'R-ITER' and 'snapshot' in o.key)
+    include_premises(cx, ['C05'], 'the systems that run are the registered ones, in queue order, only if the scheduler walks an unmodified '
+                     'same-order snapshot of the queue and skips entries that are no longer the registered object',
+                     only=lambda o: (o.rule == 'R-ITER' and 'snapshot' in o.key) or 'still-registered-test' in o.key)
+
+
+def check_scheduler_keeps_system_set(cx: Cx):
+    """The system set changes only through registrations and removals somebody asked for: the scheduler itself (execute_systems
+    and the helpers it is split into) never registers, removes or retires a system - only the systems it runs may do that, from
+    inside the open-world hook System.execute."""
+    from .common import is_system_execute_call
+    fn, sps = scheduler_paths(cx, unroll=1)
+    bad = {}
+    n = 0
+    for p in sps:
+        for e in p.events:
+            if e.kind != 'call' or is_system_execute_call(cx, e) or e.data.get('full_inline'):
+                continue
+            for t in e.data.get('targets', []) or []:
+                n += 1
+                for w, chain in cx.effects.trans_writes(t):
+                    if w.loc in (RLOC, QLOC):
+                        bad.setdefault((e.line, t.qualname), (w, chain))
+        for e in p.events:
+            if e.kind == 'store' and e.data.get('loc') in (RLOC, QLOC) and e.data.get('shared'):
+                bad.setdefault((e.line, fn.qualname), (None, ()))
+    if bad:
+        (line, q), (w, chain) = sorted(bad.items())[0]
+        cx.violation('R-DISC', fn.qualname, 'scheduler-never-changes-the-system-set',
+                     f"execute_systems itself changes the system set at line {line} (through {q}" +
+                     (f": {w.describe()}" if w is not None else '') + "): a system disappears from (or enters) the registry and the queue "
+                     "without any registration or removal in the history, so a later registration under its id is accepted and a later "
+                     "removal is rejected", where=cx.where(fn, line))
+    else:
+        cx.ok('R-DISC', f"the scheduler never registers, removes or retires a system itself ({n} callee(s) examined)", where=cx.where(fn),
+              function=fn.qualname)
 
 
 def check_remove_pairing(cx: Cx):
